@@ -27,17 +27,36 @@
     tracks without slurs, each update writes a key-off iff a note/rest/end (or tie) is delivered
     in its ticks and the key-on, last, iff a note (or tie) is delivered;
   * `C07_pitch_value_partial`: the pitch words the model computes and writes, `fmPitch = fmWord`.
+  * `C07_log_by_updates`: the export loop of a successful export is exactly the sequence updates
+    `0 … K`, the writes of update `k` at sample `735·k`, waits summing to `735·K`; when it stops;
+    when a loop marker is written;
+  * `C07_tick_delivery_all_passes`, `C07_list_machine_times`: `play_tick` on EVERY pass of a track
+    (looping list machine; hypothesis `SegTop`), and at which call which item is delivered;
+  * `C07_tempo_table_partial`, `C07_schedule_fm_partial`, `C07_schedule_fm_tempo_partial`: for a song
+    with one channel track, the tick table as a function of the tick stream alone (mid-song tempo)
+    and, for an FM channel without SLUR, the key-off / key-on writes of EVERY update of the log;
+  * `C07_slur_update_partial`, `C07_psg_update_partial`: slurred FM notes and PSG melody channels,
+    per update, on any pass;
+  * `C07_export_extent_noloop_partial`: where the log of a track without loop point ends.
   What is NOT proved here and rests on the schedule oracle (Spec/Schedule run on every real
-  export by the check) and on the byte-exact correspondence: `export_extent`, the loop passes
-  after the first, slurred notes, PSG key-on/attenuation, the register-file replay of
-  `pitch_value`, and the composition of the per-update theorems into one statement over the log
-  — kept as `C07_full_statement`.
-  Known finding (known_findings.txt, key `short-note`): at more than one tick per update the
-  key-on of a note that ends inside the update it starts in is written after its key-off.
+  export by the check) and on the byte-exact correspondence: the loop-count lemma of
+  `export_extent` (looping songs), several channels in one statement, slurs / PSG composed over
+  the log, the register-file replay of `pitch_value`, `max_seconds` — kept as `C07_full_statement`.
+  Known findings (known_findings.txt): `short-note` (at more than one tick per update the key-on
+  of a note that ends inside the update it starts in is written after its key-off), `segno-in-sub`
+  and `segno-in-loop` (a loop point below the top level of the channel's track: the player keeps
+  only an index, the second pass resumes elsewhere — excluded by `SegTop`).
 -/
 import Ctrmml.Proofs.MdDriver
 import Ctrmml.Proofs.TickStream
 import Ctrmml.Proofs.MdKeys
+import Ctrmml.Proofs.TickLoop
+import Ctrmml.Proofs.MdUpd
+import Ctrmml.Proofs.MdSched
+import Ctrmml.Proofs.MdTable
+import Ctrmml.Proofs.MdSlur
+import Ctrmml.Proofs.MdExtent
+import Ctrmml.Proofs.MdSlurSched
 import Ctrmml.Spec.Schedule
 namespace Ctrmml.C07
 open Ctrmml Ctrmml.MdDriver Tables
@@ -387,6 +406,677 @@ example :
       | .ok ops => (((stamps 0 ops).filter (fun p => isWrite p.2)).map (fun p => p.1)).eraseDups
       | .error _ => []) = [0, 735, 2205, 3675] := by decide +kernel
 
+/-! ### every pass of a track, the whole log, the schedule of an FM channel -/
+
+/-- **Tick delivery on every pass of a track.**  Hypotheses as in `C07_tick_delivery`, plus:
+every `SEGNO` the track passes is read in the channel's own track outside any loop and any
+subroutine (`TickStream.SegTop`; established by `TickStream.segTop_of_noSegno` for tracks without
+loop point and by `TickStream.segTop_one_segno` / `segTop_segment` / `segTop_segno` for loop
+points at the top level of the track), and twice the length of a pass fits the step budget of the
+fetch loop.  Then for EVERY `n` the first `n` calls of `Player::play_tick` call `write_event`
+with exactly what the looping list machine `TickStream.lxTick` delivers: the items of `perf` at
+their start ticks and the synthetic `REST`s; when the items run out and a loop point was passed,
+time has passed since the loop point and since the last jump back, the items after the last loop
+point again (and again, on every later pass); otherwise — no loop point, or a loop section that
+takes no time — `END` once, and nothing afterwards.  Outside `SegTop` the real player resumes
+somewhere else: known findings `segno-in-sub`, `segno-in-loop`. -/
+theorem C07_tick_delivery_all_passes (song : Song) (root : List Event) (pd : Int → Bool)
+    (hs : Refine.SongNoEnd song) (hr : Tree.NoEnd root) (hplain : TickStream.PlainCode song root)
+    (items : List Expand.Item) (hperf : Expand.perf song root = .ok items)
+    (hfuel : ∀ k outs, Refine.stepsCore song root k ⟨.root, 0, []⟩ = .ok (⟨.root, root.length, []⟩, outs) →
+      2 * k + 2 ≤ PlayerCh.settleFuel)
+    (hseg : ∀ k, TickStream.SegTop song root k ⟨.root, 0, []⟩) (n : Nat) :
+    TickStream.tickEvents song root pd n PlayerCh.initPS = TickStream.lxRun n (TickStream.lxInit items) := by
+  have hB : 2 * 49999 + 2 ≤ PlayerCh.settleFuel := by unfold PlayerCh.settleFuel; decide
+  have hrel := TickStream.relX_init song root hs hr items hperf 49999
+    (fun k outs h => by have := hfuel k outs h; unfold PlayerCh.settleFuel at this; omega) hseg
+  obtain ⟨s', hrun, _⟩ := TickStream.lx_sim_run song root _ 49999 (TickStream.endOK_root song root) hB n _ _ hrel
+  exact TickStream.tickEvents_ct song root pd (TickStream.plainHooks_of song root hplain) n PlayerCh.initPS rfl
+    (by unfold TickStream.drumOff; decide) s' _ hrun
+
+/-- **The log, update by update; when the export stops; where the loop marker goes.**  The
+operation list of every successful export is: the header pokes, the initial writes of
+`play_song`, the export loop `L`, `stop`, the tag.  `L` consists of the operations of the
+sequence updates `0 … K` — `updOps k` = the register writes of `seq_update` number `k`
+followed by `set_loop` iff after that update `loop_trigger` is set and `get_loop_count() = 0` —
+the operations of update `k` at sample time `735·k` (nothing else is ever written), and of waits
+that sum to `735·K`, the length of the log.  Update `K` is the FIRST update after which no
+channel plays any more or `get_loop_count()` has reached the configured number of loops
+(`stopCond`); no error arises up to then.  (Reaching `max_seconds` is `DErr.tooLong` in the
+model, i.e. not a successful export; the C++ pads the log to one hour there.) -/
+theorem C07_log_by_updates (d : Data) (song : Song) (tags : Vgm.Tags) (ops : List Vgm.Op)
+    (h : exportOps d song tags = .ok ops) :
+    ∃ K L, ops = ctorPokes ++ (playSong d song).2 ++ L ++ [Vgm.Op.stop, Vgm.Op.writeTag tags] ∧
+      stamps 0 L = schedLog d song (playSong d song).1 (K + 1) ∧ delaySum L = 735 * K ∧
+      stopCond (updRun d song (K + 1) (playSong d song).1) ∧
+      (∀ j, 1 ≤ j → j ≤ K → ¬ stopCond (updRun d song j (playSong d song).1)) ∧
+      (∀ j, j ≤ K + 1 → (updRun d song j (playSong d song).1).g.err = none) ∧
+      (∀ k, updOps d song (playSong d song).1 k =
+        (updWrs d song (playSong d song).1 k).flatMap Wr.toOps ++
+          (if (seqUpdate d song (updRun d song k (playSong d song).1)).1.g.loopTrigger = true ∧
+              loopCount (seqUpdate d song (updRun d song k (playSong d song).1)).1 = 0 then [Vgm.Op.setLoop] else [])) := by
+  obtain ⟨K, L, h1, h2, h3, h4, h5, h6⟩ := exportOps_log d song tags ops h
+  refine ⟨K, L, h1, h2, h3, h4, h5, h6, fun k => ?_⟩
+  rw [updOps_eq]
+  congr 1
+  unfold updMark stepLoop
+  split <;> rfl
+
+/-- **The schedule of an FM channel over the whole log (partial: one channel track, no SLUR).**
+Let a song have one channel track — an FM channel, `id < 6` — and any number of subroutine
+tracks, no `SLUR`, platform or drum-mode event anywhere, every `SEGNO` at the top level of the
+channel's track (`SegTop`), and let its export succeed.  Let `N_k` be the driver's tick counter
+before sequence update `k` (`N_0 = 0`, `N_{k+1} = N_k + (c_k + δ_k + 1) div 128` with the tempo
+accumulator `c_k` and the tempo `δ_k` in force: `C07_update_ticks`, `C07_tempo_closed_form`).
+Then the log is `L` as in `C07_log_by_updates`, and for EVERY update `k = 0 … K` of the log, the
+writes to the key register 0x28 at sample time `735·k` are (`FmKeySched`):
+ * only key-off / key-on words of this channel;
+ * a key-off iff a note, a rest or the end of the track (or a tie, see `C07_key_frame_partial`)
+   is delivered by the looping list machine of `C07_tick_delivery_all_passes` at a tick `τ` with
+   `N_k ≤ τ < N_{k+1}`;
+ * the key-on, as the LAST key write, iff a note (or such a tie) is delivered at such a tick.
+Hence the note that the tick stream starts at tick `τ` — on any pass of the track — is keyed
+in update `k(τ) = min {k | N_{k+1} > τ}` at sample `735·k(τ)`, and keyed off in the update that
+contains `τ + on` (the synthetic `REST`) or the start of the next note, rest or the end.  The
+last conjunct: in an update with a note the key-on is the LAST REGISTER WRITE of the update
+(`updWrs k`), so the frequency word of `C07_pitch_value_partial` — written by `update_pitch` in the
+same update whenever the pitch changed — and every other write of the update precede it.  Extra hypotheses w.r.t. the full statement:
+one channel track, FM, no `SLUR` (slurred notes: `C07_slur_update_partial`), `SegTop`; a note
+that ends inside the update it starts in is keyed on AFTER its key-off (`short-note`). -/
+theorem C07_schedule_fm_partial (d : Data) (song : Song) (tags : Vgm.Tags) (ops : List Vgm.Op)
+    (id : Nat) (root : List Event) (hid : id < 6)
+    (hexp : exportOps d song tags = .ok ops) (hsingle : SingleTrack song id root)
+    (hs : Refine.SongNoEnd song) (hr : Tree.NoEnd root) (hplain : TickStream.PlainCode song root)
+    (hnoslur : ∀ tr e, e ∈ codeOf song root tr → e.type ≠ ev_SLUR)
+    (items : List Expand.Item) (hperf : Expand.perf song root = .ok items)
+    (hfuel : ∀ k outs, Refine.stepsCore song root k ⟨.root, 0, []⟩ = .ok (⟨.root, root.length, []⟩, outs) →
+      2 * k + 2 ≤ PlayerCh.settleFuel)
+    (hseg : ∀ k, TickStream.SegTop song root k ⟨.root, 0, []⟩) :
+    ∃ K L, ops = ctorPokes ++ (playSong d song).2 ++ L ++ [Vgm.Op.stop, Vgm.Op.writeTag tags] ∧
+      stamps 0 L = schedLog d song (playSong d song).1 (K + 1) ∧ delaySum L = 735 * K ∧
+      ∀ k, k ≤ K →
+        (updRun d song (k + 1) (playSong d song).1).ticks =
+          (updRun d song k (playSong d song).1).ticks +
+            (tempoStep (updRun d song k (playSong d song).1).tempoCounter (updRun d song k (playSong d song).1).g.tempoDelta).1 ∧
+        FmKeySched (id / 3) (id % 3) (TickStream.lxInit items) (updRun d song k (playSong d song).1).ticks
+          (updRun d song (k + 1) (playSong d song).1).ticks (keysV (updOps d song (playSong d song).1 k)) ∧
+        (DeliveredIn (TickStream.lxInit items) (updRun d song k (playSong d song).1).ticks
+            (updRun d song (k + 1) (playSong d song).1).ticks (fun e => e.type = ev_NOTE) →
+          (updWrs d song (playSong d song).1 k).getLast? = some (konWr (id / 3) (id % 3))) := by
+  obtain ⟨K, L, h1, h2, h3, _, _, h6⟩ := exportOps_log d song tags ops hexp
+  have hB : 2 * 49999 + 2 ≤ PlayerCh.settleFuel := by unfold PlayerCh.settleFuel; decide
+  have hrel := TickStream.relX_init song root hs hr items hperf 49999
+    (fun k outs h => by have := hfuel k outs h; unfold PlayerCh.settleFuel at this; omega) hseg
+  refine ⟨K, L, h1, h2, h3, fun k hk => ⟨(updRun_ticks d song _ k).1, ?_, ?_⟩⟩
+  · exact single_fm_keys d song root id hid hsingle _ 49999 (TickStream.endOK_root song root) hB
+      (TickStream.plainHooks_of song root hplain)
+      (TickStream.hooks_of song root (fun t => t ≠ ev_SLUR) (by decide) hnoslur) _ hrel k
+      (fun j hj => h6 j (by omega))
+  · exact single_fm_kon_last d song root id hid hsingle _ 49999 (TickStream.endOK_root song root) hB
+      (TickStream.plainHooks_of song root hplain)
+      (TickStream.hooks_of song root (fun t => t ≠ ev_SLUR) (by decide) hnoslur) _ hrel k
+      (fun j hj => h6 j (by omega))
+
+/-- **Mid-song tempo in one statement: the table of ticks per update** (partial: one channel
+track — of any kind, FM or PSG, slurs allowed).  In a successful export of a song with one channel
+track, for every update `k = 0 … K+1`: the driver's tick counter, tempo accumulator and tempo are
+`tickTable m0 k = (N_k, c_k, δ_k)`, computed from the tick stream alone: `N_0 = 0`, `c_0 = 0`,
+`δ_0 = 128` (`play_song`); update `k` plays `n_k = (c_k + δ_k + 1) div 128` ticks,
+`c_{k+1} = (c_k + δ_k + 1) mod 128`, and `δ_{k+1}` is the LAST tempo command among the events the
+list machine delivers in the ticks `N_k … N_k + n_k − 1` (`TEMPO p` ↦ `p mod 256`, `TEMPO_BPM b` ↦
+`bpm_to_delta b`), else `δ_k`: a tempo command takes effect from the update AFTER the one that
+reads it — at any tick, first or last of its update (generator family `tempo-boundary`).
+Between tempo commands `C07_tempo_closed_form` gives `N` in closed form.  Extra hypothesis w.r.t.
+the full statement: one channel track (with several, the commands of all channels of an update
+compete in track order — decided by the oracle's `frameTable`). -/
+theorem C07_tempo_table_partial (d : Data) (song : Song) (tags : Vgm.Tags) (ops : List Vgm.Op)
+    (id : Nat) (root : List Event)
+    (hexp : exportOps d song tags = .ok ops) (hsingle : SingleTrack song id root)
+    (hs : Refine.SongNoEnd song) (hr : Tree.NoEnd root) (hplain : TickStream.PlainCode song root)
+    (items : List Expand.Item) (hperf : Expand.perf song root = .ok items)
+    (hfuel : ∀ k outs, Refine.stepsCore song root k ⟨.root, 0, []⟩ = .ok (⟨.root, root.length, []⟩, outs) →
+      2 * k + 2 ≤ PlayerCh.settleFuel)
+    (hseg : ∀ k, TickStream.SegTop song root k ⟨.root, 0, []⟩) :
+    ∃ K L, ops = ctorPokes ++ (playSong d song).2 ++ L ++ [Vgm.Op.stop, Vgm.Op.writeTag tags] ∧
+      stamps 0 L = schedLog d song (playSong d song).1 (K + 1) ∧ delaySum L = 735 * K ∧
+      ∀ k, k ≤ K + 1 →
+        ((updRun d song k (playSong d song).1).ticks, (updRun d song k (playSong d song).1).tempoCounter,
+          (updRun d song k (playSong d song).1).g.tempoDelta) = tickTable (TickStream.lxInit items) k := by
+  obtain ⟨K, L, h1, h2, h3, _, _, h6⟩ := exportOps_log d song tags ops hexp
+  have hB : 2 * 49999 + 2 ≤ PlayerCh.settleFuel := by unfold PlayerCh.settleFuel; decide
+  have hrel := TickStream.relX_init song root hs hr items hperf 49999
+    (fun k outs h => by have := hfuel k outs h; unfold PlayerCh.settleFuel at this; omega) hseg
+  exact ⟨K, L, h1, h2, h3, fun k hk => single_table d song root id hsingle _ 49999 (TickStream.endOK_root song root) hB
+    (TickStream.plainHooks_of song root hplain) _ hrel k (fun j hj => h6 j (by omega))⟩
+
+/-- **The schedule of an FM channel with mid-song tempo changes, from the tick stream alone.**
+`C07_schedule_fm_partial` with `N_k` replaced by the table of `C07_tempo_table_partial`: for every
+update `k` of the log, the key-register writes at sample `735·k` are the key-off / key-on words
+the events of the ticks `N_k … N_{k+1} − 1` call for, `N = tickTable`. -/
+theorem C07_schedule_fm_tempo_partial (d : Data) (song : Song) (tags : Vgm.Tags) (ops : List Vgm.Op)
+    (id : Nat) (root : List Event) (hid : id < 6)
+    (hexp : exportOps d song tags = .ok ops) (hsingle : SingleTrack song id root)
+    (hs : Refine.SongNoEnd song) (hr : Tree.NoEnd root) (hplain : TickStream.PlainCode song root)
+    (hnoslur : ∀ tr e, e ∈ codeOf song root tr → e.type ≠ ev_SLUR)
+    (items : List Expand.Item) (hperf : Expand.perf song root = .ok items)
+    (hfuel : ∀ k outs, Refine.stepsCore song root k ⟨.root, 0, []⟩ = .ok (⟨.root, root.length, []⟩, outs) →
+      2 * k + 2 ≤ PlayerCh.settleFuel)
+    (hseg : ∀ k, TickStream.SegTop song root k ⟨.root, 0, []⟩) :
+    ∃ K L, ops = ctorPokes ++ (playSong d song).2 ++ L ++ [Vgm.Op.stop, Vgm.Op.writeTag tags] ∧
+      stamps 0 L = schedLog d song (playSong d song).1 (K + 1) ∧ delaySum L = 735 * K ∧
+      ∀ k, k ≤ K →
+        FmKeySched (id / 3) (id % 3) (TickStream.lxInit items) (tickTable (TickStream.lxInit items) k).1
+          (tickTable (TickStream.lxInit items) (k + 1)).1 (keysV (updOps d song (playSong d song).1 k)) := by
+  obtain ⟨K, L, h1, h2, h3, _, _, h6⟩ := exportOps_log d song tags ops hexp
+  have hB : 2 * 49999 + 2 ≤ PlayerCh.settleFuel := by unfold PlayerCh.settleFuel; decide
+  have hrel := TickStream.relX_init song root hs hr items hperf 49999
+    (fun k outs h => by have := hfuel k outs h; unfold PlayerCh.settleFuel at this; omega) hseg
+  refine ⟨K, L, h1, h2, h3, fun k hk => ?_⟩
+  have hpl := TickStream.plainHooks_of song root hplain
+  have t0 := single_table d song root id hsingle _ 49999 (TickStream.endOK_root song root) hB hpl _ hrel k
+    (fun j hj => h6 j (by omega))
+  have t1 := single_table d song root id hsingle _ 49999 (TickStream.endOK_root song root) hB hpl _ hrel (k + 1)
+    (fun j hj => h6 j (by omega))
+  rw [← t0, ← t1]
+  exact single_fm_keys d song root id hid hsingle _ 49999 (TickStream.endOK_root song root) hB hpl
+    (TickStream.hooks_of song root (fun t => t ≠ ev_SLUR) (by decide) hnoslur) _ hrel k
+    (fun j hj => h6 j (by omega))
+
+/-- **Slurred notes, per update (FM channel; any track, slurs allowed, any pass).**  Let an FM
+channel of the model be in good standing (`Base`: its track, no player error, drum mode off; no
+key-on pending) and related to the looping list machine `m` (`TickStream.RelX`, established at
+the start of the track by `TickStream.relX_init` and kept by every update).  Let `evs` be the
+events `m` delivers in the next `n` ticks and `sl = slurIn c evs` — the slur flag is set before the
+update or a `SLUR` command is among `evs`.  One `MD_Channel::update(n)` — unless it ends in an
+error — leaves the channel related to the machine `n` ticks later, in good standing, and:
+ * writes only key-off / key-on words of this channel to register 0x28;
+ * writes NO key-on when `sl` holds: slurred notes are not re-keyed (and a key-on implies a note
+   or tie among `evs`); without `sl`, a note among `evs` has the key-on as the last key write and
+   a key-off before it;
+ * a key-off is written for a rest / end among `evs`; a note writes one only if the slur flag was
+   clear before the update, or an instrument change is pending or commanded in this update (the
+   instrument is then loaded at the note: `write_fm_4op` keys off) — a slurred note writes none,
+   only its frequency changes (`chAfter`: `update_pitch` runs in every update, key-on or not:
+   `C07_pitch_value_partial`);
+ * a note among `evs` clears the slur flag at the end of the update; without note and tie the
+   flag is `sl` afterwards.
+So inside one update the flag is only ever set: a `SLUR` AFTER a note start of the same update,
+or two note starts in one update of which the first is slurred, suppress the key-on of that
+update altogether — where the schedule oracle stops judging the channel ("crowded update"). -/
+theorem C07_slur_update_partial (d : Data) (song : Song) (root : List Event) (b i : Nat) (hi : i < 3) (hb : b < 2)
+    (hplain : TickStream.PlainCode song root) (cEnd : Player.Core) (B : Nat) (hend : TickStream.EndOK song root cEnd)
+    (hB : 2 * B + 2 ≤ PlayerCh.settleFuel) (n : Nat) (g : G) (c : Ch) (m : TickStream.LX)
+    (hbase : Base root c) (hk : c.kind = .fm b i) (hg : g.err = none) (hkon : c.keyOn = false)
+    (hrel : TickStream.RelX song root cEnd B ⟨c.ps.core, c.ps.acc⟩ m) :
+    (chUpdate d song n g c).1.err.isSome = true ∨
+      (TickStream.RelX song root cEnd B ⟨(chUpdate d song n g c).2.1.ps.core, (chUpdate d song n g c).2.1.ps.acc⟩
+          (TickStream.lxAfter n m) ∧
+       Base root (chUpdate d song n g c).2.1 ∧ (chUpdate d song n g c).2.1.kind = .fm b i ∧
+       (chUpdate d song n g c).2.1.keyOn = false ∧
+       (∀ x ∈ keys (chUpdate d song n g c).2.2, x = koff b i ∨ x = kon b i) ∧
+       (kon b i ∈ keys (chUpdate d song n g c).2.2 →
+          slurIn c (TickStream.lxRun n m).flatten = false ∧
+            ∃ e ∈ (TickStream.lxRun n m).flatten, e.type = ev_NOTE ∨ e.type = ev_TIE) ∧
+       ((∃ e ∈ (TickStream.lxRun n m).flatten, e.type = ev_NOTE) → slurIn c (TickStream.lxRun n m).flatten = false →
+          (keys (chUpdate d song n g c).2.2).getLast? = some (kon b i) ∧ koff b i ∈ keys (chUpdate d song n g c).2.2) ∧
+       ((∃ e ∈ (TickStream.lxRun n m).flatten, e.type = ev_REST ∨ e.type = ev_END) →
+          koff b i ∈ keys (chUpdate d song n g c).2.2) ∧
+       (koff b i ∈ keys (chUpdate d song n g c).2.2 →
+          ∃ e ∈ (TickStream.lxRun n m).flatten, e.type = ev_TIE ∨ e.type = ev_REST ∨ e.type = ev_END ∨
+            (e.type = ev_NOTE ∧ (c.slur = false ∨ c.flag ev_INS = true ∨
+              ∃ e' ∈ (TickStream.lxRun n m).flatten, e'.type = ev_INS))) ∧
+       ((∃ e ∈ (TickStream.lxRun n m).flatten, e.type = ev_NOTE) → (chUpdate d song n g c).2.1.slur = false) ∧
+       ((¬ ∃ e ∈ (TickStream.lxRun n m).flatten, e.type = ev_NOTE ∨ e.type = ev_TIE) →
+          (chUpdate d song n g c).2.1.slur = slurIn c (TickStream.lxRun n m).flatten)) := by
+  obtain ⟨s', hrun, hrel'⟩ := TickStream.lx_sim_run song root cEnd B hend hB n _ m hrel
+  rcases chUpdate_slur_keys d song root (TickStream.plainHooks_of song root hplain) b i hi hb n g c hbase hk hg hkon s' _ hrun
+    with h | ⟨a1, a2, a3, a4, a5, a6, a7, a8, a9, a10, a11, a12⟩
+  · exact Or.inl h
+  · refine Or.inr ⟨?_, a3, a4, a5, a6, a7, a8, a9, a10, a11, a12⟩
+    have : (⟨(chUpdate d song n g c).2.1.ps.core, (chUpdate d song n g c).2.1.ps.acc⟩ : Player.PState) = s' := by
+      cases s'; simp only [Player.PState.mk.injEq]; exact ⟨a1, a2⟩
+    rw [this]; exact hrel'
+
+/-- **The schedule of an FM channel over the whole log, slurs allowed** (partial: one channel
+track).  As `C07_schedule_fm_partial`, without the "no SLUR" hypothesis: let `sl_k` be the slur
+flag of the channel before update `k` (`slurOf`, read off the driver; `sl_0 = false`) and `ins_k`
+its "instrument change pending" flag.  For EVERY update `k = 0 … K` of the log (`SlurSched`):
+ * only key-off / key-on words of this channel are written to register 0x28;
+ * a key-on is written only if `sl_k` is clear and no `SLUR` is delivered in the ticks
+   `N_k … N_{k+1}−1`; then, with a note among them, it is the last key write and a key-off
+   precedes it — slurred notes are not re-keyed;
+ * a rest / the end of the track writes a key-off; a note does only if `sl_k` is clear or an
+   instrument is loaded at it (`ins_k`, or an `INS` command among the events) — a slurred note
+   writes no key-off, only its frequency (`C07_pitch_value_partial`);
+ * `sl_{k+1}`: clear after an update with a note; without note and tie it is set iff `sl_k` or a
+   `SLUR` was delivered.
+So the flag follows the tick stream: a `SLUR` sets it until the end of the update that holds the
+next note start.  Extra hypothesis w.r.t. the full statement: one channel track, `SegTop`. -/
+theorem C07_schedule_fm_slur_partial (d : Data) (song : Song) (tags : Vgm.Tags) (ops : List Vgm.Op)
+    (id : Nat) (root : List Event) (hid : id < 6)
+    (hexp : exportOps d song tags = .ok ops) (hsingle : SingleTrack song id root)
+    (hs : Refine.SongNoEnd song) (hr : Tree.NoEnd root) (hplain : TickStream.PlainCode song root)
+    (items : List Expand.Item) (hperf : Expand.perf song root = .ok items)
+    (hfuel : ∀ k outs, Refine.stepsCore song root k ⟨.root, 0, []⟩ = .ok (⟨.root, root.length, []⟩, outs) →
+      2 * k + 2 ≤ PlayerCh.settleFuel)
+    (hseg : ∀ k, TickStream.SegTop song root k ⟨.root, 0, []⟩) :
+    ∃ K L, ops = ctorPokes ++ (playSong d song).2 ++ L ++ [Vgm.Op.stop, Vgm.Op.writeTag tags] ∧
+      stamps 0 L = schedLog d song (playSong d song).1 (K + 1) ∧ delaySum L = 735 * K ∧
+      slurOf (updRun d song 0 (playSong d song).1) = false ∧ insOf (updRun d song 0 (playSong d song).1) = false ∧
+      ∀ k, k ≤ K →
+        SlurSched (id / 3) (id % 3) (TickStream.lxInit items) (updRun d song k (playSong d song).1).ticks
+          (updRun d song (k + 1) (playSong d song).1).ticks
+          (slurOf (updRun d song k (playSong d song).1)) (slurOf (updRun d song (k + 1) (playSong d song).1))
+          (insOf (updRun d song k (playSong d song).1)) (keysV (updOps d song (playSong d song).1 k)) := by
+  obtain ⟨K, L, h1, h2, h3, _, _, h6⟩ := exportOps_log d song tags ops hexp
+  have hB : 2 * 49999 + 2 ≤ PlayerCh.settleFuel := by unfold PlayerCh.settleFuel; decide
+  have hrel := TickStream.relX_init song root hs hr items hperf 49999
+    (fun k outs h => by have := hfuel k outs h; unfold PlayerCh.settleFuel at this; omega) hseg
+  have h0 := (playSong_single d song id root hsingle).1
+  have hs0 : slurOf (updRun d song 0 (playSong d song).1) = false := by
+    simp only [updRun, slurOf, h0]
+    unfold mkCh; rw [if_pos hid]
+  have hi0 : insOf (updRun d song 0 (playSong d song).1) = false := by
+    have hm : ([PlayerCh.VOL_BIT] : List Nat).contains (PlayerCh.chIdx ev_INS) = false := by decide
+    simp only [updRun, insOf, h0]
+    unfold mkCh; rw [if_pos hid]; exact hm
+  refine ⟨K, L, h1, h2, h3, hs0, hi0, fun k hk => ?_⟩
+  exact single_fm_slur_keys d song root id hid hsingle _ 49999 (TickStream.endOK_root song root) hB
+    (TickStream.plainHooks_of song root hplain) _ hrel k (fun j hj => h6 j (by omega))
+
+/-- **PSG melody channel, per update (any track, any pass).**  For a PSG melody channel
+(`kind = psg i`, tracks G–I) in good standing and related to the looping list machine `m`, one
+`MD_Channel::update(n)` — unless it ends in an error — leaves it related to the machine `n` ticks
+later, and with `atts i` = the attenuation values written to the channel's volume register:
+ * **attenuation at key-on**: if a note is among the events of these ticks, no slur is pending
+   or commanded (`slurIn`), the track has not ended in these ticks and the channel's envelope
+   starts with a level byte `d0 > 0x0f` (every instrument envelope and the default envelope do),
+   then the LAST attenuation write of the update is `psgAtt coarse vol d0` — the attenuation of
+   the volume setting in force (`C07_attenuation_antitone`) plus the first envelope level —
+   written by the envelope restart after the ticks, and the envelope stands behind its first byte;
+ * **key-off at the end of the track = attenuation 15**: if the last event of these ticks is `END`
+   and the machine has stopped, the last attenuation write of the update is 15.
+(A rest only releases the envelope: when the attenuation reaches 15 after it depends on the
+envelope program, C11's subject; the tone divider is written by `update_pitch` when the pitch
+changed, key-on or not.) -/
+theorem C07_psg_update_partial (d : Data) (song : Song) (root : List Event) (i : Nat) (hi : i < 3)
+    (hplain : TickStream.PlainCode song root) (cEnd : Player.Core) (B : Nat) (hend : TickStream.EndOK song root cEnd)
+    (hB : 2 * B + 2 ≤ PlayerCh.settleFuel) (n : Nat) (g : G) (c : Ch) (m : TickStream.LX)
+    (hbase : Base root c) (hk : c.kind = .psg i) (hg : g.err = none) (hkon : c.keyOn = false)
+    (hrel : TickStream.RelX song root cEnd B ⟨c.ps.core, c.ps.acc⟩ m) :
+    (chUpdate d song n g c).1.err.isSome = true ∨
+      (TickStream.RelX song root cEnd B ⟨(chUpdate d song n g c).2.1.ps.core, (chUpdate d song n g c).2.1.ps.acc⟩
+          (TickStream.lxAfter n m) ∧
+       Base root (chUpdate d song n g c).2.1 ∧ (chUpdate d song n g c).2.1.kind = .psg i ∧
+       ((∃ e ∈ (TickStream.lxRun n m).flatten, e.type = ev_NOTE) → slurIn c (TickStream.lxRun n m).flatten = false →
+          (TickStream.lxAfter n m).enabled = true →
+          ∀ d0, (chUpdate d song n g c).2.1.envData[0]? = some d0 → d0 > 0x0f →
+            (atts i (chUpdate d song n g c).2.2).getLast? =
+              some (psgAtt (chUpdate d song n g c).2.1.coarse ((chUpdate d song n g c).2.1.var ev_VOL_FINE) d0 % 16) ∧
+            (chUpdate d song n g c).2.1.envPos = 1 ∧ (chUpdate d song n g c).2.1.envDelay = d0 ∧
+            (chUpdate d song n g c).2.1.keyOn = false ∧ (chUpdate d song n g c).2.1.slur = false) ∧
+       (∀ e, (TickStream.lxRun n m).flatten.getLast? = some e → e.type = ev_END → (TickStream.lxAfter n m).enabled = false →
+          (atts i (chUpdate d song n g c).2.2).getLast? = some 15)) := by
+  obtain ⟨s', hrun, hrel'⟩ := TickStream.lx_sim_run song root cEnd B hend hB n _ m hrel
+  rcases chUpdate_psg d song root (TickStream.plainHooks_of song root hplain) i hi n g c hbase hk hg hkon s' _ hrun
+    with h | ⟨a1, a2, a3, a4, a5, a6⟩
+  · exact Or.inl h
+  · have hen : s'.acc.enabled = (TickStream.lxAfter n m).enabled := hrel'.1
+    refine Or.inr ⟨?_, a3, a4, fun h1 h2 h3 => a5 h1 h2 (hen.trans h3), fun e h1 h2 h3 => a6 e h1 h2 (hen.trans h3)⟩
+    have : (⟨(chUpdate d song n g c).2.1.ps.core, (chUpdate d song n g c).2.1.ps.acc⟩ : Player.PState) = s' := by
+      cases s'; simp only [Player.PState.mk.injEq]; exact ⟨a1, a2⟩
+    rw [this]; exact hrel'
+
+/-- **When the list machine delivers what (first pass).**  Loaded with any list of items,
+the looping list machine delivers, counting the calls of `play_tick` from 0:
+ * the event of every item at the call whose number is the item's start tick — the sum of the
+   durations of the items before it;
+ * the synthetic `REST` of an item with on-time and off-time at start tick + on-time;
+ * it is still playing, and has not jumped back, before every call up to number `totalDur items`;
+ * if no item is a loop point, call number `totalDur items` delivers `END` last and the machine
+   has stopped after it.
+With `C07_tick_delivery_all_passes` this is `tick_delivery` of DESIGN §6 for the first pass in its
+original form: "the channel sees the note/rest/tie/command of `perf` at exactly its tick, and a
+synthetic key-off at `start + on` when `off > 0`". -/
+theorem C07_list_machine_times (items : List Expand.Item) :
+    (∀ pre i post, items = pre ++ i :: post →
+      i.ev ∈ TickStream.lxEvents (TickStream.lxInit items) (Expand.totalDur pre)) ∧
+    (∀ pre i post, items = pre ++ i :: post → i.src.on > 0 → i.src.off > 0 →
+      PlayerCh.restEvent ∈ TickStream.lxEvents (TickStream.lxInit items) (Expand.totalDur pre + i.src.on)) ∧
+    (∀ τ, τ ≤ Expand.totalDur items → (TickStream.lxAfter τ (TickStream.lxInit items)).enabled = true ∧
+      (TickStream.lxAfter τ (TickStream.lxInit items)).lastJump = -1) ∧
+    ((∀ i ∈ items, i.src.kind ≠ .segno) →
+      (TickStream.lxAfter (Expand.totalDur items + 1) (TickStream.lxInit items)).enabled = false ∧
+      (TickStream.lxEvents (TickStream.lxInit items) (Expand.totalDur items)).getLast? = some endEvent) := by
+  obtain ⟨h1, h2, h3⟩ := TickStream.deliver items (TickStream.lxInit items) rfl rfl rfl rfl
+  exact ⟨h1, h2, h3, fun hns => TickStream.deliver_end items (TickStream.lxInit items) rfl rfl rfl rfl rfl hns⟩
+
+/-- **Extent of the log, track without loop point** (partial: one channel track of any kind).
+In a successful export of a song with one channel track whose performance passes no `SEGNO`:
+ * no update writes a loop marker — `updOps k` is just the register writes of update `k`;
+ * the log ends with the update that plays tick `D = totalDur items`, the tick at which the track
+   ends (`END` is delivered, `C07_list_machine_times`): `N_K ≤ D < N_{K+1}` for the last update
+   `K`, with `N` the tick counter of `C07_tempo_table_partial`; the waits of the log sum to
+   `735·K` samples.
+This is `export_extent` of DESIGN §6 for songs without loop point, as the schedule oracle judges
+it (`extent=end`: the log ends in update `F(longest track)`), for one channel.  Not proved: several
+channels (the last one to end decides), and looping songs — the loop-count lemma ("after the
+jump back the reset position is re-crossed one loop length after the marker") stays with the
+oracle (`extent=loop`). -/
+theorem C07_export_extent_noloop_partial (d : Data) (song : Song) (tags : Vgm.Tags) (ops : List Vgm.Op)
+    (id : Nat) (root : List Event)
+    (hexp : exportOps d song tags = .ok ops) (hsingle : SingleTrack song id root)
+    (hs : Refine.SongNoEnd song) (hr : Tree.NoEnd root) (hplain : TickStream.PlainCode song root)
+    (items : List Expand.Item) (hperf : Expand.perf song root = .ok items)
+    (hfuel : ∀ k outs, Refine.stepsCore song root k ⟨.root, 0, []⟩ = .ok (⟨.root, root.length, []⟩, outs) →
+      2 * k + 2 ≤ PlayerCh.settleFuel)
+    (hns : ∀ i ∈ items, i.src.kind ≠ .segno) :
+    ∃ K L, ops = ctorPokes ++ (playSong d song).2 ++ L ++ [Vgm.Op.stop, Vgm.Op.writeTag tags] ∧
+      stamps 0 L = schedLog d song (playSong d song).1 (K + 1) ∧ delaySum L = 735 * K ∧
+      (∀ k, k ≤ K → updOps d song (playSong d song).1 k = (updWrs d song (playSong d song).1 k).flatMap Wr.toOps) ∧
+      (updRun d song K (playSong d song).1).ticks ≤ Expand.totalDur items ∧
+      Expand.totalDur items < (updRun d song (K + 1) (playSong d song).1).ticks := by
+  obtain ⟨K, L, h1, h2, h3, h4, h5, h6⟩ := exportOps_log d song tags ops hexp
+  have hB : 2 * 49999 + 2 ≤ PlayerCh.settleFuel := by unfold PlayerCh.settleFuel; decide
+  have hseg := TickStream.segTop_of_noSegno song root hs hr items hperf hns
+  have hrel := TickStream.relX_init song root hs hr items hperf 49999
+    (fun k outs h => by have := hfuel k outs h; unfold PlayerCh.settleFuel at this; omega) hseg
+  have hnl : NoLoop (TickStream.lxInit items) := ⟨rfl, hns⟩
+  have hpl := TickStream.plainHooks_of song root hplain
+  have hstop := fun k hk => single_noloop d song root id hsingle _ 49999 (TickStream.endOK_root song root) hB hpl _ hnl hrel k
+    (fun j hj => h6 j (Nat.le_trans hj hk))
+  obtain ⟨t1, t2, t3, t4⟩ := C07_list_machine_times items
+  -- once stopped, the machine stays stopped
+  have hstay : ∀ a b, (TickStream.lxAfter a (TickStream.lxInit items)).enabled = false →
+      (TickStream.lxAfter (a + b) (TickStream.lxInit items)).enabled = false := by
+    intro a b h
+    rw [TickStream.lxAfter_add]
+    generalize TickStream.lxAfter a (TickStream.lxInit items) = m at h
+    induction b generalizing m with
+    | zero => exact h
+    | succ b ih =>
+      have : TickStream.lxTick m = (m, []) := by simp [TickStream.lxTick, h]
+      simp only [TickStream.lxAfter, this]; exact ih m h
+  refine ⟨K, L, h1, h2, h3, ?_, ?_, ?_⟩
+  · intro k hk
+    rw [updOps_eq, (hstop (K + 1) (Nat.le_refl _)).2 k (by omega), List.append_nil]
+  · -- still playing before update K
+    cases K with
+    | zero =>
+      have : (updRun d song 0 (playSong d song).1).ticks = 0 := by
+        simp only [updRun]; simp [playSong]
+      rw [this]; exact Nat.zero_le _
+    | succ K' =>
+      have hen : (TickStream.lxAfter (updRun d song (K' + 1) (playSong d song).1).ticks (TickStream.lxInit items)).enabled = true := by
+        have := h5 (K' + 1) (by omega) (Nat.le_refl _)
+        rw [(hstop (K' + 1) (by omega)).1] at this
+        simpa using this
+      rcases Nat.lt_or_ge (Expand.totalDur items) (updRun d song (K' + 1) (playSong d song).1).ticks with h | h
+      · obtain ⟨b, hb⟩ : ∃ b, (updRun d song (K' + 1) (playSong d song).1).ticks = (Expand.totalDur items + 1) + b :=
+          ⟨(updRun d song (K' + 1) (playSong d song).1).ticks - (Expand.totalDur items + 1), by omega⟩
+        rw [hb, hstay _ b (t4 hns).1] at hen
+        cases hen
+      · exact h
+  · -- stopped after update K
+    have hdis := (hstop (K + 1) (Nat.le_refl _)).1.mp h4
+    rcases Nat.lt_or_ge (Expand.totalDur items) (updRun d song (K + 1) (playSong d song).1).ticks with h | h
+    · exact h
+    · rw [(t3 _ h).1] at hdis; cases hdis
+
+/-- **The log covers the first pass** (partial: one channel track of any kind; any loop
+structure with the loop points at the top level).  In a successful export the last update `K`
+satisfies `totalDur items < N_{K+1}`: the export does not stop before the track has ended or has
+jumped back to its loop point — `get_loop_count()` is positive only after a jump back
+(`JumpInv`), and by `C07_list_machine_times` neither happens before call number
+`totalDur items` = the tick at which the last channel reaches the end of its first pass (for a
+looping track: loop point + loop length).  This is the lower end `F(M+L)` of the interval in which
+the schedule oracle accepts the end of a looping log; the upper end — the loop-count lemma — is not
+proved. -/
+theorem C07_export_covers_first_pass_partial (d : Data) (song : Song) (tags : Vgm.Tags) (ops : List Vgm.Op)
+    (id : Nat) (root : List Event)
+    (hexp : exportOps d song tags = .ok ops) (hsingle : SingleTrack song id root)
+    (hs : Refine.SongNoEnd song) (hr : Tree.NoEnd root) (hplain : TickStream.PlainCode song root)
+    (items : List Expand.Item) (hperf : Expand.perf song root = .ok items)
+    (hfuel : ∀ k outs, Refine.stepsCore song root k ⟨.root, 0, []⟩ = .ok (⟨.root, root.length, []⟩, outs) →
+      2 * k + 2 ≤ PlayerCh.settleFuel)
+    (hseg : ∀ k, TickStream.SegTop song root k ⟨.root, 0, []⟩) :
+    ∃ K L, ops = ctorPokes ++ (playSong d song).2 ++ L ++ [Vgm.Op.stop, Vgm.Op.writeTag tags] ∧
+      stamps 0 L = schedLog d song (playSong d song).1 (K + 1) ∧ delaySum L = 735 * K ∧
+      Expand.totalDur items < (updRun d song (K + 1) (playSong d song).1).ticks := by
+  obtain ⟨K, L, h1, h2, h3, h4, _, h6⟩ := exportOps_log d song tags ops hexp
+  have hB : 2 * 49999 + 2 ≤ PlayerCh.settleFuel := by unfold PlayerCh.settleFuel; decide
+  have hrel := TickStream.relX_init song root hs hr items hperf 49999
+    (fun k outs h => by have := hfuel k outs h; unfold PlayerCh.settleFuel at this; omega) hseg
+  have hst := single_stop_after_pass d song root id hsingle _ 49999 (TickStream.endOK_root song root) hB
+    (TickStream.plainHooks_of song root hplain) _ hrel (K + 1) h6 h4
+  refine ⟨K, L, h1, h2, h3, ?_⟩
+  rcases Nat.lt_or_ge (Expand.totalDur items) (updRun d song (K + 1) (playSong d song).1).ticks with h | h
+  · exact h
+  · obtain ⟨t1, t2⟩ := (C07_list_machine_times items).2.2.1 _ h
+    rcases hst with a | a
+    · rw [t1] at a; cases a
+    · exact absurd t2 a
+
+/-- **The attenuation of a PSG melody channel over the whole log** (partial: one channel track,
+`6 ≤ id < 9`, tracks G–I; slurs allowed).  In a successful export, for EVERY update `k = 0 … K`,
+with `c'` the channel after the update and `atts` the attenuation values written to its volume
+register at sample `735·k`:
+ * **attenuation at key-on**: if a note is delivered in the ticks `N_k … N_{k+1}−1`, the slur flag
+   was clear before the update, no `SLUR` is delivered in these ticks, the track has not ended by
+   `N_{k+1}` and the envelope in force starts with a level byte `d0 > 0x0f`, then the LAST
+   attenuation write of the update is `psgAtt coarse vol d0` for the volume setting in force after
+   the update (`C07_attenuation_antitone`: antitone in the setting), and the envelope stands
+   behind its first byte;
+ * **key-off = attenuation 15 at the end of the track**: in the update in which the machine
+   stops (playing at `N_k`, stopped at `N_{k+1}`) the last attenuation write is 15.
+Extra hypotheses w.r.t. the full statement: one channel track, `SegTop`; the volume setting and the
+envelope are read off the channel state (their derivation from the `VOL` / `INS` commands of the
+stream is checked by the oracle: `psgExpectedAtt`). -/
+theorem C07_schedule_psg_partial (d : Data) (song : Song) (tags : Vgm.Tags) (ops : List Vgm.Op)
+    (id : Nat) (root : List Event) (hid6 : 6 ≤ id) (hid9 : id < 9)
+    (hexp : exportOps d song tags = .ok ops) (hsingle : SingleTrack song id root)
+    (hs : Refine.SongNoEnd song) (hr : Tree.NoEnd root) (hplain : TickStream.PlainCode song root)
+    (items : List Expand.Item) (hperf : Expand.perf song root = .ok items)
+    (hfuel : ∀ k outs, Refine.stepsCore song root k ⟨.root, 0, []⟩ = .ok (⟨.root, root.length, []⟩, outs) →
+      2 * k + 2 ≤ PlayerCh.settleFuel)
+    (hseg : ∀ k, TickStream.SegTop song root k ⟨.root, 0, []⟩) :
+    ∃ K L, ops = ctorPokes ++ (playSong d song).2 ++ L ++ [Vgm.Op.stop, Vgm.Op.writeTag tags] ∧
+      stamps 0 L = schedLog d song (playSong d song).1 (K + 1) ∧ delaySum L = 735 * K ∧
+      ∀ k, k ≤ K → ∃ c', (updRun d song (k + 1) (playSong d song).1).chans = [c'] ∧
+        (DeliveredIn (TickStream.lxInit items) (updRun d song k (playSong d song).1).ticks
+            (updRun d song (k + 1) (playSong d song).1).ticks (fun e => e.type = ev_NOTE) →
+          slurOf (updRun d song k (playSong d song).1) = false →
+          ¬ DeliveredIn (TickStream.lxInit items) (updRun d song k (playSong d song).1).ticks
+            (updRun d song (k + 1) (playSong d song).1).ticks (fun e => e.type = ev_SLUR) →
+          (TickStream.lxAfter (updRun d song (k + 1) (playSong d song).1).ticks (TickStream.lxInit items)).enabled = true →
+          ∀ d0, c'.envData[0]? = some d0 → d0 > 0x0f →
+            (atts (id - 6) (updWrs d song (playSong d song).1 k)).getLast? =
+              some (psgAtt c'.coarse (c'.var ev_VOL_FINE) d0 % 16) ∧ c'.envPos = 1 ∧ c'.envDelay = d0) ∧
+        ((TickStream.lxAfter (updRun d song k (playSong d song).1).ticks (TickStream.lxInit items)).enabled = true →
+          (TickStream.lxAfter (updRun d song (k + 1) (playSong d song).1).ticks (TickStream.lxInit items)).enabled = false →
+          (atts (id - 6) (updWrs d song (playSong d song).1 k)).getLast? = some 15) := by
+  obtain ⟨K, L, h1, h2, h3, _, _, h6⟩ := exportOps_log d song tags ops hexp
+  have hB : 2 * 49999 + 2 ≤ PlayerCh.settleFuel := by unfold PlayerCh.settleFuel; decide
+  have hrel := TickStream.relX_init song root hs hr items hperf 49999
+    (fun k outs h => by have := hfuel k outs h; unfold PlayerCh.settleFuel at this; omega) hseg
+  exact ⟨K, L, h1, h2, h3, fun k hk => single_psg d song root id hid6 hid9 hsingle _ 49999 (TickStream.endOK_root song root) hB
+    (TickStream.plainHooks_of song root hplain) _ hrel k (fun j hj => h6 j (by omega))⟩
+
+/-! ### non-vacuity of the whole-log theorems -/
+/-- FM channel A: `note 40 (on 2, off 1)  L  note 42 (on 2, off 2)` -/
+def exLoopRoot : List Event := [⟨ev_NOTE, 40, 2, 1⟩, ⟨ev_SEGNO, 0, 0, 0⟩, ⟨ev_NOTE, 42, 2, 2⟩]
+def exLoopSong : Song := { tracks := [(0, exLoopRoot)] }
+def exLoopItems : List Expand.Item := exLoopRoot.map Expand.item
+def exNoTags : Vgm.Tags :=
+  { title := [], titleJ := [], game := [], gameJ := [], system := [], systemJ := [], author := [], authorJ := [],
+    date := [], creator := [], notes := [] }
+
+/-- the looping list machine on this track: note 40 at tick 0, its synthetic rest at tick 2, the
+loop point and note 42 at tick 3, rest at 5; at tick 7 the items have run out: note 42 again
+(second pass), rest at 9, note 42 at tick 11 (third pass), … -/
+example : ((TickStream.lxRun 12 (TickStream.lxInit exLoopItems)).map fun l => l.map fun e => (e.type, e.param)) =
+    [[(ev_NOTE, 40)], [], [(ev_REST, 0)], [(ev_SEGNO, 0), (ev_NOTE, 42)], [], [(ev_REST, 0)], [],
+     [(ev_NOTE, 42)], [], [(ev_REST, 0)], [], [(ev_NOTE, 42)]] := by decide
+
+/-- without a loop point the machine delivers `END` once and then nothing -/
+example : ((TickStream.lxRun 5 (TickStream.lxInit [Expand.item ⟨ev_NOTE, 40, 2, 0⟩])).map fun l => l.map fun e => e.type) =
+    [[ev_NOTE], [], [ev_END], [], []] := by decide
+
+/-- a loop section that takes no time ends the track (`c L`): `END` at tick 2 -/
+example : ((TickStream.lxRun 4 (TickStream.lxInit [Expand.item ⟨ev_NOTE, 40, 2, 0⟩, Expand.item ⟨ev_SEGNO, 0, 0, 0⟩])).map
+      fun l => l.map fun e => e.type) = [[ev_NOTE], [], [ev_SEGNO, ev_END], []] := by decide
+
+/-- the hypotheses of `C07_tick_delivery_all_passes` and `C07_schedule_fm_partial` hold for this song -/
+example :
+    (∃ ops, exportOps { ins := [] } exLoopSong exNoTags = .ok ops) ∧ SingleTrack exLoopSong 0 exLoopRoot ∧
+    Refine.SongNoEnd exLoopSong ∧ Tree.NoEnd exLoopRoot ∧ TickStream.PlainCode exLoopSong exLoopRoot ∧
+    (∀ tr e, e ∈ codeOf exLoopSong exLoopRoot tr → e.type ≠ ev_SLUR) ∧
+    Expand.perf exLoopSong exLoopRoot = .ok exLoopItems ∧
+    (∀ k outs, Refine.stepsCore exLoopSong exLoopRoot k ⟨.root, 0, []⟩ = .ok (⟨.root, exLoopRoot.length, []⟩, outs) →
+      2 * k + 2 ≤ PlayerCh.settleFuel) ∧
+    (∀ k, TickStream.SegTop exLoopSong exLoopRoot k ⟨.root, 0, []⟩) := by
+  have hall := TickStream.songNoEnd_of_all exLoopSong exLoopRoot (by decide)
+  refine ⟨?_, ⟨[], rfl, by decide, by simp⟩, hall.1, hall.2, ?_, ?_, rfl, ?_, ?_⟩
+  · have h : (match exportOps { ins := [] } exLoopSong exNoTags with | .ok _ => true | .error _ => false) = true := by
+      decide +kernel
+    cases hx : exportOps { ins := [] } exLoopSong exNoTags with
+    | ok ops => exact ⟨ops, rfl⟩
+    | error e => rw [hx] at h; cases h
+  · exact TickStream.of_allEvents exLoopSong exLoopRoot (fun e => e.type ≠ ev_PLATFORM ∧ e.type ≠ ev_DRUM_MODE) (by decide)
+  · exact TickStream.of_allEvents exLoopSong exLoopRoot (fun e => e.type ≠ ev_SLUR) (by decide)
+  · exact TickStream.fuel_of_run exLoopSong exLoopRoot 3
+      [.hook ⟨ev_NOTE, 40, 2, 1⟩ ⟨ev_NOTE, 40, 2, 1⟩, .hook ⟨ev_SEGNO, 0, 0, 0⟩ ⟨ev_SEGNO, 0, 0, 0⟩, .hook ⟨ev_NOTE, 42, 2, 2⟩ ⟨ev_NOTE, 42, 2, 2⟩]
+      _ rfl (by unfold PlayerCh.settleFuel; decide)
+  · exact TickStream.segTop_one_segno exLoopSong exLoopRoot hall.1 [⟨ev_NOTE, 40, 2, 1⟩] [⟨ev_NOTE, 42, 2, 2⟩] ⟨ev_SEGNO, 0, 0, 0⟩ rfl
+      hall.2 (by decide) [Expand.item ⟨ev_NOTE, 40, 2, 1⟩] [Expand.item ⟨ev_NOTE, 42, 2, 2⟩] rfl rfl (by decide) (by decide)
+
+/-- the table of the corpus song `T255, 3.3 note, T10, 2.2 note, BPM 200, 6.6 note` (channel A): the native tempo
+255 read in update 0 is in force from update 1 (two ticks per update), tempo 10 read at tick 6 (update 3) from
+update 4 on -/
+example :
+    ((List.range 6).map fun k => tickTable (TickStream.lxInit
+      ([⟨ev_TEMPO, 255, 0, 0⟩, ⟨ev_NOTE, 40, 3, 3⟩, ⟨ev_TEMPO, 10, 0, 0⟩, ⟨ev_NOTE, 41, 2, 2⟩].map Expand.item)) k) =
+    [(0, 0, 128), (1, 1, 255), (3, 1, 255), (5, 1, 255), (7, 1, 10), (7, 12, 10)] := by decide
+
+/-- the log of this song, update by update (default tempo: one tick per update): key-off and
+key-on of note 40 in update 0, its key-off in update 2, the loop marker, key-off and key-on of
+note 42 in update 3, key-off in update 5, note 42 again in update 7 (second pass), after which
+the loop count is 1 and the export stops: `K = 7`, 5145 samples -/
+example :
+    ((List.range 8).map fun k => (keysV (updOps { ins := [] } exLoopSong (playSong { ins := [] } exLoopSong).1 k),
+      (updMark { ins := [] } exLoopSong (playSong { ins := [] } exLoopSong).1 k).length,
+      (updRun { ins := [] } exLoopSong k (playSong { ins := [] } exLoopSong).1).ticks)) =
+    [([0, 0xf0], 0, 0), ([], 0, 1), ([0], 0, 2), ([0, 0xf0], 1, 3), ([], 0, 4), ([0], 0, 5), ([], 0, 6), ([0, 0xf0], 0, 7)] ∧
+    (match exportOps { ins := [] } exLoopSong exNoTags with
+      | .ok ops => delaySum ops
+      | .error _ => 0) = 735 * 7 := by
+  decide +kernel
+
+/-- the hypotheses of `C07_slur_update_partial` / `C07_psg_update_partial` hold at the start of a track
+(FM channel A and PSG channel G on the track of the examples above): `mkCh` leaves the channel in
+good standing, `relX_init` relates it to the looping list machine loaded with `perf` -/
+example :
+    Base exLoopRoot (mkCh { ins := [] } 0 exLoopRoot).1 ∧ (mkCh { ins := [] } 0 exLoopRoot).1.kind = .fm 0 0 ∧
+    (mkCh { ins := [] } 0 exLoopRoot).1.keyOn = false ∧
+    Base exLoopRoot (mkCh { ins := [] } 6 exLoopRoot).1 ∧ (mkCh { ins := [] } 6 exLoopRoot).1.kind = .psg 0 ∧
+    (mkCh { ins := [] } 6 exLoopRoot).1.envData[0]? = some 0x10 ∧
+    TickStream.RelX exLoopSong exLoopRoot ⟨.root, exLoopRoot.length, []⟩ 49999
+      ⟨(mkCh { ins := [] } 0 exLoopRoot).1.ps.core, (mkCh { ins := [] } 0 exLoopRoot).1.ps.acc⟩ (TickStream.lxInit exLoopItems) := by
+  have hall := TickStream.songNoEnd_of_all exLoopSong exLoopRoot (by decide)
+  refine ⟨(mkCh_base _ exLoopRoot 0).1, rfl, rfl, (mkCh_base _ exLoopRoot 6).1, rfl, rfl, ?_⟩
+  have hfuel := TickStream.fuel_of_run exLoopSong exLoopRoot 3
+    [.hook ⟨ev_NOTE, 40, 2, 1⟩ ⟨ev_NOTE, 40, 2, 1⟩, .hook ⟨ev_SEGNO, 0, 0, 0⟩ ⟨ev_SEGNO, 0, 0, 0⟩, .hook ⟨ev_NOTE, 42, 2, 2⟩ ⟨ev_NOTE, 42, 2, 2⟩]
+    (2 * 49999 + 2) rfl (by decide)
+  exact TickStream.relX_init exLoopSong exLoopRoot hall.1 hall.2 exLoopItems rfl 49999
+    (fun k outs h => by have := hfuel k outs h; omega)
+    (TickStream.segTop_one_segno exLoopSong exLoopRoot hall.1 [⟨ev_NOTE, 40, 2, 1⟩] [⟨ev_NOTE, 42, 2, 2⟩] ⟨ev_SEGNO, 0, 0, 0⟩ rfl
+      hall.2 (by decide) [Expand.item ⟨ev_NOTE, 40, 2, 1⟩] [Expand.item ⟨ev_NOTE, 42, 2, 2⟩] rfl rfl (by decide) (by decide))
+
+/-- a slur chain on FM channel A, `c4(2) & d4(2) & e4(2) r(1)` at one tick per update: key-off and key-on
+for the first note only, NO key write for the two slurred notes (updates 2 and 4; their frequency words are
+written), key-off at the rest (update 6) and at the end of the track (update 7) -/
+example :
+    ((List.range 8).map fun k => keysV (updOps { ins := [] }
+      { tracks := [(0, [⟨ev_NOTE, 40, 2, 0⟩, ⟨ev_SLUR, 0, 0, 0⟩, ⟨ev_NOTE, 42, 2, 0⟩, ⟨ev_SLUR, 0, 0, 0⟩, ⟨ev_NOTE, 44, 2, 0⟩,
+          ⟨ev_REST, 0, 0, 1⟩])] }
+      (playSong { ins := [] } { tracks := [(0, [⟨ev_NOTE, 40, 2, 0⟩, ⟨ev_SLUR, 0, 0, 0⟩, ⟨ev_NOTE, 42, 2, 0⟩, ⟨ev_SLUR, 0, 0, 0⟩,
+          ⟨ev_NOTE, 44, 2, 0⟩, ⟨ev_REST, 0, 0, 1⟩])] }).1 k)) =
+    [[0, 0xf0], [], [], [], [], [], [0], [0]] := by
+  decide +kernel
+
+/-- the hypotheses of `C07_schedule_fm_slur_partial` hold for the slur chain above -/
+example :
+    let root : List Event := [⟨ev_NOTE, 40, 2, 0⟩, ⟨ev_SLUR, 0, 0, 0⟩, ⟨ev_NOTE, 42, 2, 0⟩, ⟨ev_SLUR, 0, 0, 0⟩, ⟨ev_NOTE, 44, 2, 0⟩,
+      ⟨ev_REST, 0, 0, 1⟩]
+    let song : Song := { tracks := [(0, root)] }
+    (∃ ops, exportOps { ins := [] } song exNoTags = .ok ops) ∧ SingleTrack song 0 root ∧
+    Refine.SongNoEnd song ∧ Tree.NoEnd root ∧ TickStream.PlainCode song root ∧
+    Expand.perf song root = .ok (root.map Expand.item) ∧
+    (∀ k outs, Refine.stepsCore song root k ⟨.root, 0, []⟩ = .ok (⟨.root, root.length, []⟩, outs) →
+      2 * k + 2 ≤ PlayerCh.settleFuel) ∧
+    (∀ k, TickStream.SegTop song root k ⟨.root, 0, []⟩) := by
+  intro root song
+  have hall := TickStream.songNoEnd_of_all song root (by decide)
+  refine ⟨?_, ⟨[], rfl, by decide, by simp⟩, hall.1, hall.2, ?_, rfl, ?_, ?_⟩
+  · have h : (match exportOps { ins := [] } song exNoTags with | .ok _ => true | .error _ => false) = true := by
+      decide +kernel
+    cases hx : exportOps { ins := [] } song exNoTags with
+    | ok ops => exact ⟨ops, rfl⟩
+    | error e => rw [hx] at h; cases h
+  · exact TickStream.of_allEvents song root (fun e => e.type ≠ ev_PLATFORM ∧ e.type ≠ ev_DRUM_MODE) (by decide)
+  · exact TickStream.fuel_of_run song root 6 (root.map fun e => .hook e e) _ rfl (by unfold PlayerCh.settleFuel; decide)
+  · exact TickStream.segTop_of_noSegno song root hall.1 hall.2 (root.map Expand.item) rfl (by decide)
+
+/-- PSG channel G, `v12 c4(2+1)` with the default envelope (first byte 0x10): the attenuation written at
+the key-on update is `psgAtt true 12 0x10 = 3` (twice: by the pending volume change at the note, then — last —
+by the envelope restart); the synthetic rest (update 2) releases the envelope to 15; the
+end of the track (update 3) writes 15 again -/
+example :
+    ((List.range 4).map fun k => atts 0 (updWrs { ins := [] }
+      { tracks := [(6, [⟨ev_VOL, 12, 0, 0⟩, ⟨ev_NOTE, 40, 2, 1⟩])] }
+      (playSong { ins := [] } { tracks := [(6, [⟨ev_VOL, 12, 0, 0⟩, ⟨ev_NOTE, 40, 2, 1⟩])] }).1 k)) =
+    [[3, 3], [], [15], [15]] ∧ psgAtt true 12 0x10 = 3 := by
+  decide +kernel
+
+/-- the hypotheses of `C07_export_extent_noloop_partial` hold for `shortNoteSong` (no loop point); its track
+lasts 9 ticks, at T255 the tick counter before the updates is 0, 1, 3, 5, 7, 9, 11: the log ends with update 5
+(`9 ≤ 9 < 11`), 3675 samples -/
+example :
+    SingleTrack shortNoteSong 0 [⟨ev_TEMPO, 255, 0, 0⟩, ⟨ev_REST, 0, 0, 1⟩, ⟨ev_NOTE, 40, 1, 3⟩, ⟨ev_REST, 0, 0, 4⟩] ∧
+    Expand.perf shortNoteSong [⟨ev_TEMPO, 255, 0, 0⟩, ⟨ev_REST, 0, 0, 1⟩, ⟨ev_NOTE, 40, 1, 3⟩, ⟨ev_REST, 0, 0, 4⟩] =
+      .ok ([⟨ev_TEMPO, 255, 0, 0⟩, ⟨ev_REST, 0, 0, 1⟩, ⟨ev_NOTE, 40, 1, 3⟩, ⟨ev_REST, 0, 0, 4⟩].map Expand.item) ∧
+    (∀ i ∈ ([⟨ev_TEMPO, 255, 0, 0⟩, ⟨ev_REST, 0, 0, 1⟩, ⟨ev_NOTE, 40, 1, 3⟩, ⟨ev_REST, 0, 0, 4⟩] : List Event).map Expand.item,
+      i.src.kind ≠ .segno) ∧
+    Expand.totalDur (([⟨ev_TEMPO, 255, 0, 0⟩, ⟨ev_REST, 0, 0, 1⟩, ⟨ev_NOTE, 40, 1, 3⟩, ⟨ev_REST, 0, 0, 4⟩] : List Event).map Expand.item) = 9 ∧
+    ((List.range 7).map fun k => (updRun { ins := [] } shortNoteSong k (playSong { ins := [] } shortNoteSong).1).ticks) =
+      [0, 1, 3, 5, 7, 9, 11] ∧
+    (match exportOps { ins := [] } shortNoteSong exNoTags with
+      | .ok ops => delaySum ops
+      | .error _ => 0) = 735 * 5 := by
+  refine ⟨⟨[], rfl, by decide, by simp⟩, rfl, by decide, by decide, ?_, ?_⟩ <;> decide +kernel
+
+/-- the hypotheses of `C07_schedule_psg_partial` hold for the PSG song above (`v12 c4(2+1)` on channel G) -/
+example :
+    let root : List Event := [⟨ev_VOL, 12, 0, 0⟩, ⟨ev_NOTE, 40, 2, 1⟩]
+    let song : Song := { tracks := [(6, root)] }
+    (∃ ops, exportOps { ins := [] } song exNoTags = .ok ops) ∧ SingleTrack song 6 root ∧
+    Refine.SongNoEnd song ∧ Tree.NoEnd root ∧ TickStream.PlainCode song root ∧
+    Expand.perf song root = .ok (root.map Expand.item) ∧
+    (∀ k outs, Refine.stepsCore song root k ⟨.root, 0, []⟩ = .ok (⟨.root, root.length, []⟩, outs) →
+      2 * k + 2 ≤ PlayerCh.settleFuel) ∧
+    (∀ k, TickStream.SegTop song root k ⟨.root, 0, []⟩) := by
+  intro root song
+  have hall := TickStream.songNoEnd_of_all song root (by decide)
+  refine ⟨?_, ⟨[], rfl, by decide, by simp⟩, hall.1, hall.2, ?_, rfl, ?_, ?_⟩
+  · have h : (match exportOps { ins := [] } song exNoTags with | .ok _ => true | .error _ => false) = true := by
+      decide +kernel
+    cases hx : exportOps { ins := [] } song exNoTags with
+    | ok ops => exact ⟨ops, rfl⟩
+    | error e => rw [hx] at h; cases h
+  · exact TickStream.of_allEvents song root (fun e => e.type ≠ ev_PLATFORM ∧ e.type ≠ ev_DRUM_MODE) (by decide)
+  · exact TickStream.fuel_of_run song root 2 (root.map fun e => .hook e e) _ rfl (by unfold PlayerCh.settleFuel; decide)
+  · exact TickStream.segTop_of_noSegno song root hall.1 hall.2 (root.map Expand.item) rfl (by decide)
+
 /-! ### the full statement (not proved; decided per export by the schedule oracle) -/
 /-- no keyed note ends inside the update it starts in: an update plays at most two ticks
 (`C07_tempo_step_le_two`), so an on-time of at least two ticks suffices; this is the exclusion of
@@ -405,10 +1095,15 @@ def InsAgree (d : Data) (t : Schedule.InsTab) : Prop :=
 /-- Every valid plain-subset song exports, the exported file parses, and the schedule oracle
 (key-on / key-off updates, pitch and attenuation at each key-on, extent and loop marker) finds
 no deviation.  `NoShortNote` excludes the known finding `short-note` (a note ending inside
-the update it starts in); proved pieces: `C07_tick_delivery`, `C07_key_frame_partial`,
-`C07_update_ticks`, `C07_pitch_value_partial`, `C07_log_on_grid`; missing: the composition over
-all updates and channels, slurs, PSG, the loop passes after the first and the loop-count lemma of
-`export_extent`. -/
+the update it starts in).  Proved pieces: `C07_log_by_updates` (the log is the updates),
+`C07_tick_delivery_all_passes` + `C07_list_machine_times` (the tick stream), `C07_tempo_table_partial`
+(the frame table, one channel), `C07_schedule_fm_partial` / `C07_schedule_fm_tempo_partial` (FM keys
+over the whole log, one channel, no slur), `C07_slur_update_partial`, `C07_psg_update_partial` (per
+update), `C07_export_extent_noloop_partial`, `C07_pitch_value_partial`.  Missing: several channels in
+one statement, slurs and PSG composed over the log, the loop-count lemma of `export_extent`, the
+register-file replay of the pitch, and the reading of the oracle's own tables (`Schedule.walk`,
+`place`, `frameTable`) as these theorems; a song must also keep every loop point at the top level
+of its channel tracks (known findings `segno-in-sub`, `segno-in-loop`). -/
 def C07_full_statement : Prop :=
   ∀ (d : Data) (song : Song) (tags : Vgm.Tags) (t : Schedule.InsTab),
     InsAgree d t → NoShortNote song →
